@@ -28,6 +28,7 @@ const (
 	tStr
 	tChar
 	tOptInt
+	tHalf // an integer-valued float plus 0.5
 	tOther
 )
 
@@ -37,10 +38,12 @@ type trEnv struct {
 	consts map[string]string // Go constant name -> Lean Int term
 	ret    string            // "plain" | "okpair" | "panicopt" | "nat" | "valerr"
 	errNil string            // inside a `v, err := …` match arm: the Lean truth value of `err == nil`
+	u8     map[string]bool       // variables of Go type uint8 (arithmetic on them wraps)
+	labels map[string][]ast.Stmt // top-level labelled continuation of the function body (for `goto L`)
 }
 
 func (e *trEnv) clone() *trEnv {
-	n := &trEnv{p: e.p, vars: map[string]ty{}, consts: e.consts, ret: e.ret, errNil: e.errNil}
+	n := &trEnv{p: e.p, vars: map[string]ty{}, consts: e.consts, ret: e.ret, errNil: e.errNil, labels: e.labels, u8: e.u8}
 	for k, v := range e.vars {
 		n.vars[k] = v
 	}
@@ -49,7 +52,7 @@ func (e *trEnv) clone() *trEnv {
 
 var intConsts = map[string]string{
 	"maxInt": "maxInt", "math.MaxInt64": "maxInt64", "math.MinInt64": "minInt64", "math.MaxInt32": "maxInt32",
-	"bits.UintSize": "(64 : Int)", "two63": "two63", "two64": "two64",
+	"bits.UintSize": "(64 : Int)", "two63": "two63", "two64": "two64", "math.MaxUint32": "(4294967295 : Int)",
 }
 
 var valueIdents = map[string]string{
@@ -167,7 +170,21 @@ func (e *trEnv) expr(x ast.Expr) (string, ty, error) {
 				}
 				return "(" + fn + " " + a + " " + b + ")", tInt, nil
 			}
+		case token.AND:
+			// r&1 on an integer: its lowest bit
+			if lit, ok := v.Y.(*ast.BasicLit); ok && lit.Kind == token.INT && lit.Value == "1" {
+				a, ta, err := e.expr(v.X)
+				if err == nil && ta == tInt {
+					return "(" + a + " % 2)", tInt, nil
+				}
+			}
 		case token.ADD, token.SUB:
+			if lit, ok := v.Y.(*ast.BasicLit); ok && v.Op == token.ADD && lit.Kind == token.FLOAT && lit.Value == "0.5" {
+				a, ta, err := e.expr(v.X)
+				if err == nil && ta == tInt {
+					return a, tHalf, nil // the integer part; compared with halfLt / halfGt
+				}
+			}
 			a, ta, err := e.expr(v.X)
 			if err != nil {
 				return "", tOther, err
@@ -177,6 +194,9 @@ func (e *trEnv) expr(x ast.Expr) (string, ty, error) {
 				return "", tOther, err
 			}
 			if ta == tInt && tb == tInt {
+				if id, ok := v.X.(*ast.Ident); ok && e.u8[id.Name] {
+					return "wrapU 8 (" + a + " " + v.Op.String() + " " + b + ")", tInt, nil // uint8 arithmetic wraps
+				}
 				return "(" + a + " " + v.Op.String() + " " + b + ")", tInt, nil
 			}
 		case token.EQL, token.NEQ, token.LSS, token.LEQ, token.GTR, token.GEQ:
@@ -206,6 +226,13 @@ func (e *trEnv) expr(x ast.Expr) (string, ty, error) {
 			if ta == tStr && tb == tStr && v.Op == token.EQL {
 				return "decide (" + a + " = " + b + ")", tBool, nil
 			}
+			if ta == tHalf && tb == tFloat && (v.Op == token.LSS || v.Op == token.GTR) {
+				fn := "halfLt"
+				if v.Op == token.GTR {
+					fn = "halfGt"
+				}
+				return fn + " " + a + " " + b, tBool, nil
+			}
 			if ta == tFloat && tb == tInt {
 				// IEEE comparison of a float64 variable with an integer-valued constant (converted to float64 by Go)
 				fn := map[token.Token]string{token.EQL: "eqI", token.NEQ: "neI", token.LSS: "ltI", token.LEQ: "leI", token.GTR: "gtI", token.GEQ: "geI"}[v.Op]
@@ -227,6 +254,9 @@ func (e *trEnv) expr(x ast.Expr) (string, ty, error) {
 			}
 			if ta == tInt && tb == tValue && v.Op == token.EQL { // valueInt == Value: interface equality
 				return "decide (Num.int " + a + " = " + b + ")", tBool, nil
+			}
+			if ta == tValue && tb == tValue && v.Op == token.NEQ && strings.HasPrefix(b, "Num.flt ") {
+				return "!(valueEqFloat " + a + " (" + strings.TrimPrefix(b, "Num.flt ") + "))", tBool, nil
 			}
 			if ta == tValue && tb == tValue && v.Op == token.EQL && strings.HasPrefix(b, "Num.flt ") {
 				// Value == Value constant of dynamic type valueFloat: equal dynamic type and float ==
@@ -256,6 +286,8 @@ func (e *trEnv) expr(x ast.Expr) (string, ty, error) {
 			return "(radixPrefix " + args[0] + " : Int)", tInt, nil
 		case fn == "strconv.ParseInt" && len(args) == 3 && tys[0] == tStr && tys[1] == tInt && args[2] == "(64 : Int)":
 			return "StrNum.goParseInt " + args[0] + " (" + args[1] + ").toNat", tOptInt, nil
+		case fn == "math.Floor" && one(tFloat):
+			return "floorF " + args[0], tInt, nil // an integer-valued float, kept as its exact integer
 		case fn == "math.Signbit" && one(tFloat):
 			return "signbit " + args[0], tBool, nil
 		case fn == "math.IsNaN" && one(tFloat):
@@ -392,6 +424,24 @@ func (e *trEnv) stmts(list []ast.Stmt, ind string) (string, error) {
 		if gd, ok := v.Decl.(*ast.GenDecl); ok && gd.Tok == token.CONST {
 			return e.stmts(rest, ind)
 		}
+		// var x int64  → zero value
+		if gd, ok := v.Decl.(*ast.GenDecl); ok && gd.Tok == token.VAR && len(gd.Specs) == 1 {
+			vs := gd.Specs[0].(*ast.ValueSpec)
+			if len(vs.Names) == 1 && len(vs.Values) == 0 && e.text(vs.Type) == "int64" {
+				n := e.clone()
+				n.vars[vs.Names[0].Name] = tInt
+				r, err := n.stmts(rest, ind)
+				return "let " + vs.Names[0].Name + " : Int := 0\n" + ind + r, err
+			}
+		}
+	case *ast.LabeledStmt: // the label itself carries no meaning; `goto L` continues at the labelled statement
+		return e.stmts(append([]ast.Stmt{v.Stmt}, rest...), ind)
+	case *ast.BranchStmt:
+		if v.Tok == token.GOTO && v.Label != nil {
+			if cont, ok := e.labels[v.Label.Name]; ok {
+				return e.stmts(cont, ind)
+			}
+		}
 	case *ast.ReturnStmt:
 		return e.retExpr(v)
 	case *ast.ExprStmt:
@@ -412,8 +462,20 @@ func (e *trEnv) stmts(list []ast.Stmt, ind string) (string, error) {
 				arms := map[string]string{}
 				for _, c := range v.Body.List {
 					cc := c.(*ast.CaseClause)
+					if len(cc.List) == 0 {
+						continue // default: a non-Number value
+					}
 					if len(cc.List) != 1 {
-						return "", fmt.Errorf("type switch clause with %d types", len(cc.List))
+						hasNum := false
+						for _, tx := range cc.List {
+							if t := e.text(tx); t == "valueInt" || t == "valueFloat" {
+								hasNum = true
+							}
+						}
+						if hasNum {
+							return "", fmt.Errorf("type switch clause mixing Number and other types")
+						}
+						continue // only non-Number dynamic types
 					}
 					tn := e.text(cc.List[0])
 					n := e.clone()
@@ -423,7 +485,7 @@ func (e *trEnv) stmts(list []ast.Stmt, ind string) (string, error) {
 					case "valueInt":
 						n.vars[name] = tInt
 					default:
-						return "", fmt.Errorf("type switch on %s", tn)
+						continue // a non-Number dynamic type: outside the Number model (documented in DecTie.lean)
 					}
 					body, err := n.stmts(append(append([]ast.Stmt{}, cc.Body...), rest...), ind+"    ")
 					if err != nil {
@@ -469,6 +531,15 @@ func (e *trEnv) stmts(list []ast.Stmt, ind string) (string, error) {
 				return fmt.Sprintf("match %s with\n%s| some %s =>\n%s    %s\n%s| none =>\n%s    let %s : Int := 0\n%s    %s", r, ind, e.text(v.Lhs[0]), ind, a, ind, ind, e.text(v.Lhs[0]), ind, b), nil
 			}
 		}
+		// x = e  (re-assignment of an int variable)
+		if len(v.Lhs) == 1 && len(v.Rhs) == 1 && v.Tok == token.ASSIGN {
+			if id, ok := v.Lhs[0].(*ast.Ident); ok && e.vars[id.Name] == tInt {
+				if r, t, err := e.expr(v.Rhs[0]); err == nil && t == tInt {
+					body, err := e.stmts(rest, ind)
+					return "let " + id.Name + " := " + r + "\n" + ind + body, err
+				}
+			}
+		}
 		// v = v.ToNumber(): the identity on a Number value
 		if e.text(v) == "v = v.ToNumber()" && e.vars["v"] == tValue {
 			return e.stmts(rest, ind)
@@ -476,9 +547,16 @@ func (e *trEnv) stmts(list []ast.Stmt, ind string) (string, error) {
 		// x := e
 		if len(v.Lhs) == 1 && len(v.Rhs) == 1 && v.Tok == token.DEFINE {
 			r, t, err := e.expr(v.Rhs[0])
-			if err == nil && (t == tFloat || t == tInt || t == tBool) {
+			if err == nil && (t == tFloat || t == tInt || t == tBool || t == tHalf) {
 				n := e.clone()
 				n.vars[e.text(v.Lhs[0])] = t
+				if c, ok := v.Rhs[0].(*ast.CallExpr); ok && e.text(c.Fun) == "uint8" {
+					u := map[string]bool{e.text(v.Lhs[0]): true}
+					for k := range e.u8 {
+						u[k] = true
+					}
+					n.u8 = u
+				}
 				body, err := n.stmts(rest, ind)
 				return "let " + e.text(v.Lhs[0]) + " := " + r + "\n" + ind + body, err
 			}
@@ -575,18 +653,26 @@ func (e *trEnv) stmts(list []ast.Stmt, ind string) (string, error) {
 			// `i, ok := floatToInt(f); ok`
 			if len(as.Lhs) == 2 && len(as.Rhs) == 1 && e.text(v.Cond) == e.text(as.Lhs[1]) {
 				call, okc := as.Rhs[0].(*ast.CallExpr)
-				if okc && e.text(call.Fun) == "floatToInt" && len(call.Args) == 1 && v.Else == nil {
+				if okc && e.text(call.Fun) == "floatToInt" && len(call.Args) == 1 {
 					arg, t, err := e.expr(call.Args[0])
 					if err != nil || t != tFloat {
 						return "", fmt.Errorf("floatToInt argument")
 					}
 					n := e.clone()
 					n.vars[e.text(as.Lhs[0])] = tInt
-					th, err := n.stmts(v.Body.List, ind+"  ")
+					th, err := n.stmts(append(append([]ast.Stmt{}, v.Body.List...), rest...), ind+"  ")
 					if err != nil {
 						return "", err
 					}
-					r, err := e.stmts(rest, ind)
+					elseList := rest
+					if v.Else != nil {
+						eb, ok := v.Else.(*ast.BlockStmt)
+						if !ok {
+							return "", fmt.Errorf("untranslatable else of floatToInt init")
+						}
+						elseList = append(append([]ast.Stmt{}, eb.List...), rest...)
+					}
+					r, err := e.stmts(elseList, ind)
 					return fmt.Sprintf("match floatToInt %s with\n%s| some %s => %s\n%s| none =>\n%s%s", arg, ind, e.text(as.Lhs[0]), th, ind, ind, r), err
 				}
 			}
@@ -690,10 +776,14 @@ func translateDecisions(p *Pkg) (string, error) {
 		{"", "toUint32", "toUint32", [][2]string{{"v", "Num"}}, map[string]ty{"v": tValue}, "plain", "Int", ""},
 		{"", "radixPrefix", "radixPrefix", [][2]string{{"ss", "List Nat"}}, map[string]ty{"ss": tStr}, "plain", "Int", ""},
 		{"", "stringToInt", "stringToInt", [][2]string{{"ss", "List Nat"}}, map[string]ty{"ss": tStr}, "valerr", "Option Int", ""},
+		{"", "toUint8Clamp", "toUint8Clamp", [][2]string{{"v", "Num"}}, map[string]ty{"v": tValue}, "plain", "Int", ""},
+		{"Runtime", "toLengthUint32", "toLengthUint32", [][2]string{{"v", "Num"}}, map[string]ty{"v": tValue}, "panicopt", "Option Int", ""},
 		{"valueFloat", "SameAs", "floatSameAs", [][2]string{{"f", "F64"}, {"other", "Num"}}, map[string]ty{"f": tFloat, "other": tValue}, "plain", "Bool", ""},
 		{"valueInt", "SameAs", "intSameAs", [][2]string{{"i", "Int"}, {"other", "Num"}}, map[string]ty{"i": tInt, "other": tValue}, "plain", "Bool", ""},
 		{"valueFloat", "StrictEquals", "floatStrictEquals", [][2]string{{"f", "F64"}, {"other", "Num"}}, map[string]ty{"f": tFloat, "other": tValue}, "plain", "Bool", ""},
 		{"valueInt", "StrictEquals", "intStrictEquals", [][2]string{{"i", "Int"}, {"other", "Num"}}, map[string]ty{"i": tInt, "other": tValue}, "plain", "Bool", ""},
+		{"valueFloat", "Equals", "floatEquals", [][2]string{{"f", "F64"}, {"other", "Num"}}, map[string]ty{"f": tFloat, "other": tValue}, "plain", "Bool", ""},
+		{"valueInt", "Equals", "intEquals", [][2]string{{"i", "Int"}, {"other", "Num"}}, map[string]ty{"i": tInt, "other": tValue}, "plain", "Bool", ""},
 		{"valueFloat", "hash", "floatHash", [][2]string{{"f", "F64"}}, map[string]ty{"f": tFloat}, "nat", "Nat", ""},
 		{"valueInt", "hash", "intHash", [][2]string{{"i", "Int"}}, map[string]ty{"i": tInt}, "nat", "Nat", ""},
 	}
@@ -719,7 +809,12 @@ func translateDecisions(p *Pkg) (string, error) {
 			}
 			list = list[idx+1:]
 		}
-		env := &trEnv{p: p, vars: f.vars, ret: f.ret}
+		env := &trEnv{p: p, vars: f.vars, ret: f.ret, labels: map[string][]ast.Stmt{}}
+		for i, st := range list {
+			if ls, ok := st.(*ast.LabeledStmt); ok {
+				env.labels[ls.Label.Name] = list[i:]
+			}
+		}
 		body, err := env.stmts(list, "  ")
 		if err != nil {
 			return "", fmt.Errorf("%s: %v", f.name, err)
